@@ -7,7 +7,7 @@ from pvmon.monitors import Obs
 from pvmon.props.common import rng_for, run_pipeflow
 
 MANIFEST = {
-    "text": "Held on every generated network and rewrite: reversing any subset of pipes / ju valves / heat exchangers, splitting multi-section pipes into series pipes, merging sections (liquid, uniform temperature), aggregating / splitting loads and turning sources into negative sinks, deleting disabled elements, and shifting all fixed pressures of a liquid net give the results predicted by the rewrite within rtol 1e-7 on tight solves, for hydraulic and thermal results.",
+    "text": "Held on every generated network and rewrite: reversing any subset of pipes / ju valves / heat exchangers, splitting multi-section pipes into series pipes, merging sections (liquid, uniform temperature), aggregating / splitting loads and turning sources into negative sinks, deleting disabled elements (among them stand-by pumps / compressors of another type listed before or after the running one), and shifting all fixed pressures of a liquid net give the results predicted by the rewrite within rtol 1e-7 on tight solves, for hydraulic and thermal results.",
     "note": "Both sides are tight Newton solves; non-converged sides and solutions with a flow-less pump/compressor (no unique lift) are not comparable (counted). Split pipes get interpolated height, start pressure and start temperature at the new junctions.",
     "technique": "runtime monitoring: metamorphic oracle over six equivalence rewrites comparing result tables of real runs",
 }
@@ -19,9 +19,9 @@ ASSUMPTIONS = ["a non-converged side is not comparable (counted), never a violat
 CONFIG = {"quick": {"shards": 8, "timeout_s": 600, "cases": 200},
           "thorough": {"shards": 16, "timeout_s": 3000, "cases": 4000}}
 REQUIRED_COUNTERS = ["compared_reverse", "compared_split", "compared_merge", "compared_aggregate", "compared_drop_disabled",
-                     "compared_shift", "compared_reverse_thermal", "compared_split_thermal", "compared_gas"]
+                     "compared_shift", "compared_drop_standby_machine", "compared_reverse_thermal", "compared_split_thermal", "compared_gas"]
 FEATS = [("valves", "oos", "heat_exchanger"), ("valves", "pi_valves", "oos", "closed", "mass_storage"),
-         ("multi_grid", "mass_storage", "oos"), ("pump", "valves", "oos", "multi_grid"), ("compressor", "flow_control", "oos")]
+         ("multi_grid", "mass_storage", "oos"), ("pump", "multi_pump", "valves", "oos", "multi_grid"), ("compressor", "multi_pump", "flow_control", "oos")]
 
 
 def gen_cases(tier, seed):
@@ -37,6 +37,8 @@ def make(case):
         opts = dict(netgen.TIGHT, mode=str(rng.choice(["sequential", "sequential", "bidirectional"])), use_numba=case["numba"])
     else:
         base = netgen.gen_hydraulic(rng, fluid=case["fluid"], features=case["feats"], max_sections=4)
+        if {"pump", "compressor"} & set(case["feats"]):
+            netgen.add_standby(base, rng)             # disabled machines of another type before / after running ones
         if rng.random() < 0.5:
             base = netgen.permute_rows(base, rng)     # loads of one junction in non-adjacent rows, unsorted tables
         opts = dict(netgen.TIGHT, use_numba=case["numba"], friction_model=str(rng.choice(["nikuradse", "swamee-jain", "colebrook"])),
@@ -162,6 +164,8 @@ def run_case(case, ctx):
             else:
                 diffs, n, md = diff_snapshots(s0, s5, skip_names=gone)
                 judge("drop_disabled", diffs, n, detail={"dropped": sorted(gone)})
+                if any(g.endswith("_standby") for g in gone):
+                    obs.count("compared_drop_standby_machine")
         # 6 shift
         if not gas:
             c = float(rng.uniform(0.5, 5.0))
